@@ -85,6 +85,15 @@ type pDash struct {
 	Gone  int    `json:"-"`
 }
 
+// pStrictNest: strict decoding is recursive - an unknown key inside a nested object is refused too,
+// in object and in array notation
+type pStrictNest struct {
+	Name string `json:"name"`
+	In   pInner `json:"in"`
+}
+
+func (pStrictNest) DisallowUnknownFields() {}
+
 type pStrictP struct{ A int }
 
 func (*pStrictP) DisallowUnknownFields() {}
@@ -99,6 +108,7 @@ var c15ArgTypes = []reflect.Type{
 	reflect.TypeOf([]pPlain(nil)), reflect.TypeOf(map[string]pPlain(nil)), reflect.TypeOf([1]pPlain{}), reflect.TypeOf((**pPlain)(nil)), reflect.TypeOf([]*pTagged(nil)),
 	reflect.TypeOf(pLevel(0)), reflect.TypeOf([]pLevel(nil)),
 	reflect.TypeOf(pDash{}), reflect.TypeOf(&pDash{}),
+	reflect.TypeOf(pStrictNest{}), reflect.TypeOf(&pStrictNest{}),
 }
 
 // docFieldNames: the positional names of a struct parameter as documented: exported fields in
@@ -187,6 +197,7 @@ var c15Params = []string{
 	`{"a":1,"b":2}`, `[1,2]`, `{"a":1,"b":2,"c":3}`, `[1,2,3]`, `{"A":7}`, `{"A":7,"extra":true}`, `[7]`, `[1, 2 ]`, ` [ 1 ] `, `[null,null]`, `{"A":null}`, `[[1,2],3]`, `{"k":1,"j":2}`, `[1.5]`, `1.5`,
 	`"low"`, `"medium"`, `["high","medium"]`, `[{"A":1,"b":"x"}]`, `[{"A":1,"zz":2}]`, `{"k":{"A":1,"b":"y"}}`, `{"k":{"A":1,"zz":2}}`, `[{"x":1,"nope":0}]`,
 	`{"-":4,"o":"x"}`, `[4,"x",9]`,
+	`["n",{"I":7}]`, `["n",{"I":7,"bogus":true}]`, `{"name":"n","in":{"I":7,"bogus":true}}`, `{"name":"n","in":{"I":7}}`, `["n",{"I":7},3]`,
 	// a request that is refused after part of it has been decoded, then one that omits those parts
 	`{"A":9,"b":5}`, `{"b":"only"}`, `[8,[]]`, `{}`, `{"x":7,"why":"no"}`, `{"why":[4]}`, `{"k":3,"j":"no"}`, `{"j":1}`, `[{"A":1},{"A":"no"}]`, `[{"b":"z"}]`,
 }
@@ -462,8 +473,10 @@ func TestC16(t *testing.T) {
 		kinds[4]: {`{"k":1}`, `null`, `[1]`}, kinds[5]: {`{"A":1,"b":"y"}`, `null`, `{"A":"bad"}`, `{"zz":1}`}, kinds[6]: {`true`, `null`, `0`},
 		// integers that float64 cannot represent, and pre-encoded text: elements must arrive exactly
 		kinds[7]: {`9007199254740993`, `-9223372036854775808`, `9223372036854775807`, `"x"`}, kinds[8]: {`18446744073709551615`, `9007199254740993`, `-1`},
-		kinds[9]:  {`9007199254740993`, `{"a":[1.0,2e0]}`, `"z"`},
-		kinds[10]: {`"low"`, `"high"`, `"medium"`},
+		// (a null element is DECODED into its parameter - a RawMessage receives the text `null`, a type
+		// with its own decoder is called with it - not left out)
+		kinds[9]:  {`9007199254740993`, `null`, `{"a":[1.0,2e0]}`, `"z"`},
+		kinds[10]: {`"low"`, `null`, `"high"`, `"medium"`},
 	}
 	var pl, pimpl []string
 	var pin []any
